@@ -31,13 +31,17 @@ RULE = ('1–3 helper calls per case, each on fresh real streams over the first 
         'calls; 10 % of the cases are holder histories: ONE MultiStream passed as multi_stream= to 2–5 successive lle '
         '(or vle) calls with different feeds / efficiencies / top chemicals, and single calls get a pre-filled holder in '
         '~25 % of the lle/vle ops; split vectors j/64; K = 2^e·(1+j/8) within 1e-3…1e3 (all-below-1, all-above-1, exactly-1 and mixed '
-        'sets), forced top/bottom chemicals disjoint from the equilibrium set; moisture j/64 in (0,0.95); '
+        'sets; 12 % of the partition calls with chemicals to force put every K on one side of 1 and force material only into '
+        'the opposite phase), forced top/bottom chemicals disjoint from the equilibrium set; moisture j/64 in (0,0.95); '
         'efficiencies j/16; diagonally dominant dyadic inlet matrices for the balance solver; a 12 % share of '
         'out-of-domain K (negative) exercises the clipping / InfeasibleRegion branches.  Non-trivial = a call that '
         'returned with material in both outlets (or a reported infeasibility); distinct = distinct op lists')
 ASSUMPTIONS = [
     'Rachford–Rice phase fraction (value returned by compute_phase_fraction) is a parameter: theorems hold for every value; '
-    'the 2-component closed form and the dispatch of binary_phase_fraction.phase_fraction are modelled and compared',
+    'the 2-component closed form and the dispatch of binary_phase_fraction.phase_fraction are modelled and compared; of '
+    'solve_phase_fraction_Rashford_Rice the single-phase early exits and the end-point sign tests are modelled (sv=), the '
+    'iterated root is a parameter monitored to bracket a sign change of the exact objective within 2e-6 (root=, K > 0 only); '
+    'oracle: both phases non-empty => every equilibrium chemical in both and returned phi = top share within 1e-5',
     'rows left by MultiStream.lle / .vle are parameters; monitored hypotheses: the rows the equilibrium routine is entered '
     'with are exactly the feed in `l` and nothing elsewhere whatever the multi_stream holder held (load=), and the rows it '
     'leaves sum to the feed (hyp=, C03)',
@@ -313,8 +317,10 @@ def emit_bpf(o):
     """the dispatch of binary_phase_fraction.phase_fraction, from the recorded call"""
     if 'pf_args' not in REC or 'pf' not in REC: return
     zs, ks, za, zb = REC['pf_args']
-    o.emit(f'bpf zs={V(zs)} ks={V(ks)} za={frac(za)} zb={frac(zb)} solver={frac(REC.get("solver", 0.0))}',
-           f'bpf phi={frac(REC["pf"])}')
+    called = 'solver' in REC
+    o.emit(f'bpf zs={V(zs)} ks={V(ks)} za={frac(za)} zb={frac(zb)} solver={frac(REC.get("solver", 0.0))} '
+           f'x0={frac(1e-16 if za else 0.)} x1={frac((1 - 1e-16) if zb else 1.)}',
+           f'bpf phi={frac(REC["pf"])} sv={frac(REC["solver"]) if called else "-"} root=1')
 
 
 def k_spread(ids, K, t, b):
@@ -394,6 +400,26 @@ def op_pt(d, o):
         if phi2 != 'infeasible': check_stale(o, 'partition', [t, b], [t2, b2], what)
     if in_domain and not clip and 0 < phi < 1 and spread > 1e-7:
         o.fail('partition:K-not-reproduced', f'top_i/(K_i·bottom_i) differs by {spread:.3g} between equilibrium chemicals {what}')
+    # "reproduces the given partition coefficients between the two outlets when both are non-empty": the two phases of
+    # the problem partition solves are (equilibrium + forced-top) and (equilibrium + forced-bottom) chemicals; chemicals
+    # listed nowhere ride along in the top and take no part.  When both phases hold material every equilibrium chemical
+    # of the feed (K finite and positive) must be present in both, and the returned "phase fraction in top phase" must be
+    # the top's share of that material (Rachford–Rice consistency, the hypothesis of partition_K_exact).
+    top_part = sum(t[i] for i in set(ids) | set(topc))
+    bot_part = sum(b[i] for i in set(ids) | set(botc))
+    one_sided = (all(k >= 1 for k in K) and any(feed0[i] for i in botc) and not any(feed0[i] for i in topc)) or \
+                (all(k <= 1 for k in K) and any(feed0[i] for i in topc) and not any(feed0[i] for i in botc))
+    if one_sided: o.tags.append('pt:class:one-sided-K-with-opposite-forced')
+    if in_domain and not clip and top_part > 0 and bot_part > 0:
+        o.tags.append('pt:class:both-phases-non-empty')
+        missing = [i for i in ids if feed0[i] > 0 and not (t[i] > 0 and b[i] > 0)]
+        if missing:
+            o.fail('partition:K-not-reproduced',
+                   f'both outlets hold material but {[CHEMS[i] for i in missing]} (K finite, > 0) are absent from one of them: '
+                   f'achieved K is 0 or infinite; top={t} bottom={b} {what}')
+        share = top_part / (top_part + bot_part)
+        if abs(phi - share) > 1e-5:
+            o.fail('partition:phi-inconsistent', f'returned phase fraction {phi!r} but the top phase holds {share!r} of the partitioned material {what}')
     # the returned value is documented as "phase fraction in top phase": 0 / 1 must mean an empty top / bottom
     # as far as the equilibrium chemicals are concerned
     if phi <= 0 and any(not near(t[i], 0.0) for i in ids):
@@ -845,6 +871,15 @@ def gen_op(rng):
         feed = flows(rng, n, 0.15)
         if not any(feed[i] for i in ids): feed[ids[0]] = 1.0 + dy(rng)
         K = gen_K(rng, m)
+        if rest and rng.random() < 0.12:
+            # every coefficient on one side of 1 and material forced only into the OTHER phase: both phases exist, the
+            # single-phase shortcuts of the phase-fraction routine must not fire
+            up = rng.random() < 0.5
+            K = [k if (k >= 1) == up else 1 / k for k in K]
+            forced = [i for i in rest if rng.random() < 0.7] or [rest[0]]
+            topc, botc = ([], forced) if up else (forced, [])
+            for i in forced:
+                if not feed[i]: feed[i] = 0.5 + dy(rng)
         d = dict(n=n, feed=feed, ids=list(ids), K=K, topc=topc, botc=botc, strict=int(rng.random() < 0.3),
                  top0=stale(rng, n), bot0=stale(rng, n))
         if rng.random() < 0.12:      # outside the property's domain: reaches the clipping / InfeasibleRegion branches
